@@ -102,6 +102,7 @@ def run(rep, tier):
     rep.rule('R15.1', 'escape tables are inverse: for every char c that jsonEscape writes as \\L, jsonUnescape maps L back to c, and jsmn_parse_string accepts \\L; quote and backslash are escaped')
     rep.rule('R15.1c', 'positive control: Convenience.cpp escape/unescape extracted with the same code and inverse of each other')
     rep.rule('R15.2', 'stack discipline in Data::fromJSON: every back()/pop_back() on dataStack/tokenStack is reached only with the container known non-empty (push or emptiness test on every path)')
+    rep.rule('R15.5', 'single unescape: the text of a string/primitive token passes through jsonUnescape exactly once before it becomes an atom, and key text exactly once')
     rep.rule('R15.3', 'token buffer: capacity handed to jsmn_parse is strictly smaller than the zero-initialised allocation (sentinel token the walker relies on), and the whole allocation is zeroed')
     fb = facts.FactBase(TUS)
     rep.covered(tus=len(TUS), extracted=fb.extracted, functions=len(fb.funcs))
@@ -151,17 +152,19 @@ def run(rep, tier):
         rep.ok('R15.2', 'fromJSON|guarded', '%d back()/pop_back() sites reached only with the container known non-empty' % okc)
 
     # ---- R15.3
-    malloc = memset = parse = None
+    malloc = memset = parse = calloc = None
     for n in fj.walk():
         q = n.get('callee', {}).get('q')
         if q == 'malloc':
             malloc = n
+        elif q == 'calloc':
+            calloc = n
         elif q == 'memset':
             memset = n
         elif q == 'jsmn_parse':
             parse = n
-    if not (malloc and parse):
-        raise AnalysisBroken('R15.3: malloc/jsmn_parse call not found in Data::fromJSON')
+    if not ((malloc or calloc) and parse):
+        raise AnalysisBroken('R15.3: token buffer allocation / jsmn_parse call not found in Data::fromJSON')
 
     def linear(n):
         """(variable lid or None, constant) of  V, V + k, k"""
@@ -188,15 +191,42 @@ def run(rep, tier):
                 if l and l[0] is not None:
                     return l
         return None
-    alloc = count_of(malloc['c'][1])
+    if malloc is not None:
+        alloc = count_of(malloc['c'][1])
+        allocsite = malloc
+    else:
+        alloc = linear(calloc['c'][1])       # calloc(count, size): zero-initialised by definition
+        allocsite = calloc
     cap = linear(parse['c'][4]) if len(parse['c']) > 4 else None
     if not alloc or not cap:
-        raise AnalysisBroken('R15.3: allocation size / capacity not in the form (V + k) * sizeof, V + j at %s' % locstr(malloc))
+        raise AnalysisBroken('R15.3: allocation size / capacity not in the form (V + k) * sizeof, V + j at %s' % locstr(allocsite))
     rep.check(alloc[0] == cap[0] and cap[1] < alloc[1], 'R15.3', 'fromJSON|capacity<alloc', locstr(parse),
-              'allocated V%+d tokens, jsmn_parse capacity V%+d (sentinel %s)' % (alloc[1], cap[1], 'kept' if alloc[0] == cap[0] and cap[1] < alloc[1] else 'LOST'))
-    if memset is None:
+              'allocated V%+d tokens, jsmn_parse capacity V%+d (sentinel %s)' % (alloc[1], cap[1], 'kept' if alloc[0] == cap[0] and cap[1] < alloc[1] else 'LOST: the walker reads t[capacity] past the block when the budget is used up exactly'))
+    if calloc is not None and malloc is None:
+        rep.ok('R15.3', 'fromJSON|zeroed', 'calloc zero-initialises the buffer')
+    elif memset is None:
         rep.fail('R15.3', 'fromJSON|zeroed', locstr(malloc), 'token buffer is not zero-initialised; the walker stops on t[i].end == 0')
     else:
         z = count_of(memset['c'][3])
         rep.check(z == alloc and tab.const_of(memset['c'][2]) == 0, 'R15.3', 'fromJSON|zeroed', locstr(memset),
                   'memset covers V%+d tokens with %s; allocation has V%+d' % ((z or (0, 0))[1], tab.const_of(memset['c'][2]), alloc[1]))
+
+    # ---- R15.5 every token text is unescaped exactly once on its way into an atom / a key
+    sws = [n for n in fj.walk() if n['k'] == 'SwitchStmt']
+    if not sws:
+        raise AnalysisBroken('R15.5: token-type switch not found in Data::fromJSON')
+    tok_sw = [w for w in sws if any('JSMN_PRIMITIVE' in (a_['names'] or []) for a_ in tab.switch_arms(w))]
+    if not tok_sw:
+        raise AnalysisBroken('R15.5: token-type switch not found in Data::fromJSON')
+    arms = tab.switch_arms(tok_sw[0])
+    for a in arms:
+        if not any(nm in ('JSMN_STRING', 'JSMN_PRIMITIVE') for nm in a['names'] if nm):
+            continue
+        sets_atom = any(s_['k'] == 'MemberExpr' and s_['ref'].get('name') == 'atom' for st in a['eff'] for s_ in sub(st))
+        if not sets_atom:
+            continue
+        calls = [s_ for st in a['stmts'] for s_ in sub(st) if s_.get('callee', {}).get('q', '').endswith('jsonUnescape')]
+        if 'JSMN_PRIMITIVE' in [nm for nm in a['names'] if nm]:
+            rep.check(len(calls) == 1, 'R15.5', 'fromJSON|value unescaped once', locstr(a['node']), 'the value arm applies jsonUnescape %d time(s) to the token text before storing it as atom (a second pass turns \\\\n into a newline)' % len(calls))
+    keycalls = [n for n in fj.walk() if n.get('callee', {}).get('q', '').endswith('jsonUnescape') and any(a_['k'] == 'IfStmt' and any(x['k'] == 'DeclRefExpr' and x['ref'].get('name') == 'JSMN_OBJECT' for x in sub(a_['c'][0])) for a_ in fj.ancestors(n))]
+    rep.check(len(keycalls) == 1, 'R15.5', 'fromJSON|key unescaped once', fj.where(), 'the key path applies jsonUnescape %d time(s)' % len(keycalls))
